@@ -1,7 +1,7 @@
 """Generated modules whose doctests have by-construction outcomes (shared by C10, C15, C11)."""
 
 KINDS = ['pass', 'fail_output', 'fail_exc', 'all_skipped', 'partly_skipped', 'expected_exc', 'disabled', 'comment_only',
-         'note_then_skip', 'skip_then_note', 'fail_directive_first', 'fail_compile_first', 'late_disable_word', 'warn_then_fail', 'warn_then_pass']
+         'note_then_skip', 'skip_then_note', 'fail_directive_first', 'fail_compile_first', 'late_disable_word', 'warn_then_fail', 'warn_then_pass', 'requires_unmet_block']
 # kinds used by the native-runner checks only (under pytest a first line '# pytest.skip' is a force-disable word)
 NATIVE_ONLY_KINDS = ['pytest_skip_comment']
 # kinds whose verdict is not fixed by construction but must be the SAME in both front ends: a doctest that needs a module which is
@@ -22,6 +22,9 @@ def doc_lines(kind, n):
         return [">>> x = %d" % n, ">>> raise ValueError('x%d')" % n]
     if kind == 'all_skipped':
         return ['>>> # xdoctest: +SKIP', ">>> print('s%d')" % n, 'never compared']
+    if kind == 'requires_unmet_block':
+        # a block directive whose condition is not met: everything after it is skipped, in THIS doctest only
+        return ['>>> # xdoctest: +REQUIRES(module:xdverif_no_such_module_%d)' % n, ">>> print('u%d')" % n, 'never compared']
     if kind == 'partly_skipped':
         return [">>> print('no')  # xdoctest: +SKIP", 'not compared', ">>> print('z%d')" % n, 'z%d' % n]
     if kind == 'expected_exc':
@@ -57,7 +60,7 @@ def doc_lines(kind, n):
 # verdict when the doctest is run
 VERDICT = {'pass': 'passed', 'fail_output': 'failed', 'fail_exc': 'failed', 'all_skipped': 'skipped',
            'partly_skipped': 'passed', 'expected_exc': 'passed', 'disabled': 'failed', 'comment_only': 'skipped',
-           'note_then_skip': 'skipped', 'skip_then_note': 'skipped', 'fail_directive_first': 'failed', 'fail_compile_first': 'failed', 'late_disable_word': 'passed', 'warn_then_fail': 'failed', 'warn_then_pass': 'passed', 'pytest_skip_comment': 'failed'}
+           'note_then_skip': 'skipped', 'skip_then_note': 'skipped', 'fail_directive_first': 'failed', 'fail_compile_first': 'failed', 'late_disable_word': 'passed', 'warn_then_fail': 'failed', 'warn_then_pass': 'passed', 'pytest_skip_comment': 'failed', 'requires_unmet_block': 'skipped'}
 
 
 def module_source(kinds, layout='functions'):
